@@ -122,7 +122,21 @@ func runC09(c *Case, out func(string)) {
 			}
 		case "seq":
 			k, v := tok(l[3]), tok(l[4])
-			s, err := w.AppendWithSequence(opOf(l[1]), k, v, parseNum(l[2]))
+			// the number: absolute, or relative to the log's next number ("=", "+n", "-n")
+			sq := uint64(0)
+			switch {
+			case l[2] == "=":
+				sq = w.GetNextSequence()
+			case strings.HasPrefix(l[2], "+"):
+				sq = w.GetNextSequence() + parseNum(l[2][1:])
+			case strings.HasPrefix(l[2], "-"):
+				if d := parseNum(l[2][1:]); d <= w.GetNextSequence() {
+					sq = w.GetNextSequence() - d
+				}
+			default:
+				sq = parseNum(l[2])
+			}
+			s, err := w.AppendWithSequence(opOf(l[1]), k, v, sq)
 			if err != nil {
 				out("A " + werr(err))
 			} else {
@@ -355,7 +369,7 @@ func genC09(w *bufio.Writer, seed int64, n int, tier string) {
 				}
 				return false
 			}
-			switch pick(r, 8, 3, 1, 3, 2, 2, 2, 1) {
+			switch pick(r, 8, 3, 1, 3, 2, 2, 2, 1, 2) {
 			case 0:
 				if big() {
 					kl, vl := bigEntry(r, false)
@@ -405,6 +419,13 @@ func genC09(w *bufio.Writer, seed int64, n int, tier string) {
 				fmt.Fprintf(w, "from %d\n", r.Intn(nops+2))
 			case 7:
 				fmt.Fprintf(w, "raw %d %s %s\n", []int{0, 4, 255, 3}[r.Intn(4)], genSizedTok(r, false), genSizedTok(r, false))
+			case 8:
+				// an entry with a caller-chosen number (the replication entry point): exactly the
+				// log's next number, ahead of it, behind it; the following appends must go on above it
+				fmt.Fprintf(w, "seq %s %s %s %s\n", []string{"put", "del", "put"}[r.Intn(3)], []string{"=", "=", "=", "+1", "+7", "-1", "-3", "1", "5"}[r.Intn(9)], genSizedTok(r, false), genSizedTok(r, false))
+				if r.Intn(2) == 0 {
+					fmt.Fprintf(w, "put %s %s\n", genSizedTok(r, false), genSizedTok(r, false))
+				}
 			}
 		}
 		fmt.Fprintf(w, "from %d\n", r.Intn(nops+2))
